@@ -61,7 +61,7 @@ class FStr(object):
         self.x = x
 
 
-BIG = 1e200
+BIG = 1e307
 ULP = 2.3e-16
 
 # names the interpreter reserves for PHREEQC quantities and commands (manual table 8 and later additions);
@@ -948,8 +948,10 @@ class Machine(object):
             if isinstance(s, FStr):
                 x = s.x
                 i = exact_int(x, "str_layout_noninteger")
-                if abs(i) >= 10 ** 15:
-                    raise Undefined("str_layout")
+                if abs(x.v) >= 1e249:
+                    # whole numbers of 1e250 and more are written in exponential format with 5 (13 under
+                    # -high_precision) significant digits: the round trip is exact to that many digits only
+                    return Num(x.v, 2e-5 * abs(x.v))
                 return Num(float(i))
             s = need_str(s, ln)
             if not _val_re.match(s):
@@ -992,8 +994,6 @@ class Machine(object):
             p = exact_int(need_num(a[1], ln), "mid_position")
             if p < 1:
                 raise Undefined("mid_position_below_1")
-            if p > len(s) + 1:
-                raise Undefined("mid_start_beyond_end")
             if len(a) == 3:
                 m = exact_int(need_num(a[2], ln), "mid_length")
                 if m < 0:
@@ -1235,9 +1235,6 @@ class Machine(object):
                         pc = q
                 else:
                     self.count("on_out_of_range")
-                    if a[1] == "GOSUB":
-                        # recorded finding: the engine leaves a stale GOSUB record behind
-                        raise Undefined("known_on_gosub_selector_out_of_range")
                     pc += 1
             elif k == "data":
                 pc += 1
@@ -2068,12 +2065,12 @@ class Gen(object):
             return Nd(self.binary("+", a, b, P_ADD), P_ADD, typ="s", lmin=a.lmin + b.lmin, lmax=a.lmax + b.lmax)
         if c < 7:
             s = self.str_expr(d - 1)
-            self.avoid("mid_start_within_string_by_construction")
+            self.avoid("mid_start_at_least_1_by_construction")
             if s.op and s.op[0] == "lit" and self.chance(0.6):
                 n = len(s.op[1])
-                p = self.r.randint(1, n + 1)
+                p = self.r.randint(1, n + 1) if self.chance(0.7) else n + self.r.randint(2, 6)     # beyond the end: ""
                 if self.chance(0.5):
-                    return Nd(self.kw("MID$") + "(" + s.txt + ", %d)" % p, P_ATOM, typ="s", lmin=n - p + 1, lmax=n - p + 1)
+                    return Nd(self.kw("MID$") + "(" + s.txt + ", %d)" % p, P_ATOM, typ="s", lmin=max(n - p + 1, 0), lmax=max(n - p + 1, 0))
                 m = self.r.randint(0, n + 2)
                 k = max(0, min(m, n - p + 1))
                 return Nd(self.kw("MID$") + "(" + s.txt + ", %d, %d)" % (p, m), P_ATOM, typ="s", lmin=k, lmax=k)
@@ -2081,8 +2078,12 @@ class Gen(object):
             if s.prec != P_ATOM or "(" in s.txt:
                 s = self.str_atom()
             ln_ = self.kw("LEN") + "(" + s.txt + ")"
-            k = self.sel(3)
-            if k == 0:
+            k = self.sel(5)
+            if k == 4:
+                start = ln_ + self.sp("+") + str(self.r.randint(2, 9))             # always beyond the end
+            elif k == 5:
+                start = "1" + self.sp("+") + ln_ + self.sp("+") + self.clean(self.fit_int(self.int_expr(1), 0, 3)).txt
+            elif k == 0:
                 i = self.clean(self.fit_int(self.int_expr(1), 0, 10 ** 6))
                 start = "1" + self.sp("+") + self.kw("FLOOR") + "((" + self.at(i, P_MUL + 1) + self.sp("MOD") + "(" + ln_ + self.sp("+") + "1))" + self.sp("+") + "0.5)"
             elif k == 1:
@@ -2186,7 +2187,9 @@ class Gen(object):
         items = []
         for _ in range(n):
             c = self.sel(9)
-            if c < 3:
+            if self.chance(0.04):
+                items.append(self.huge())
+            elif c < 3:
                 items.append(self.int_expr(d).txt)
             elif c < 7:
                 items.append(self.num_expr(d).txt)
@@ -2194,6 +2197,16 @@ class Gen(object):
                 items.append(self.str_expr(d).txt)
         self.punches += n * self.mult
         return self.kw("PUNCH") + " " + self.pick([", ", ",", " , "]).join(items)
+
+    def huge(self):
+        """whole numbers around 1e250 (PRINT and STR$ change to exponential format there) up to 9.99e305"""
+        m = self.pick(["1", "1.5", "2", "7.25", "9.99", "3", "1.000001"])
+        t = m + self.pick(["e", "E", "e+"]) + str(self.r.randint(240, 305))
+        if self.chance(0.3):
+            t = "-" + t
+        if self.chance(0.4):
+            return self.kw("VAL") + "(" + self.kw("STR$") + "(" + t + "))"
+        return t
 
     def st_put(self, d):
         k = self.pick(self.store_keys)
@@ -2478,10 +2491,6 @@ class Gen(object):
             self.avoid("on_selector_not_a_half")
         subs = self.callable_subs()
         if subs and self.chance(0.4) and all(self.sub_cost[s] * self.mult < 3000 for s in subs):
-            self.avoid("on_gosub_selector_in_range_by_construction")
-            sel = self.fit_int(self.int_expr(1), 1, n)
-            if self.chance(0.3):
-                sel = Nd(self.at(sel, P_ADD) + self.sp(self.pick("+-")) + self.pick(["0.25", "0.3", "0.125"]), P_ADD, 0, n + 1)
             tg = [self.pick(subs) for _ in range(n)]
             for s in tg:
                 self.cost += self.sub_cost[s] * self.mult
